@@ -149,6 +149,8 @@ def b_len(I, args, kwargs, node):
     if isinstance(v, SymList):
         _alive(v)
         return mk_int(v.n)
+    if isinstance(v, SliceSym):
+        return mk_int(v.n)
     if isinstance(v, SDict):
         return len(v.d)
     if isinstance(v, SSet):
@@ -414,6 +416,27 @@ def symlist_index(I, L, idx, node, exc=IndexError):
     return z3.simplify(z3.If(zi >= 0, zi, zi + n))
 
 
+def symlist_slice(I, L, sl):
+    """L[a:b] (step 1): a window on a snapshot; bounds normalised and clamped as python does"""
+    _alive(L)
+    if sl.step is not None:
+        raise Unsupported("extended slice of a list of symbolic length")
+    n = L.n
+
+    def clamp(b, default):
+        if b is None:
+            return default
+        if not is_intlike(b) or isinstance(b, (bool, SBool)):
+            raise Unsupported("slice bound of a list of symbolic length is not an int")
+        zb = to_zint(b)
+        zb = z3.If(zb < 0, zb + n, zb)
+        return z3.If(zb < 0, z3.IntVal(0), z3.If(zb > n, n, zb))
+    lo = z3.simplify(clamp(sl.start, z3.IntVal(0)))
+    hi = z3.simplify(clamp(sl.stop, n))
+    cnt = z3.simplify(z3.If(hi - lo > 0, hi - lo, z3.IntVal(0)))
+    return SliceSym(L.snapshot(), lo, cnt)
+
+
 def symlist_write(I, L, pos, obj, node=None):
     """one mutation = one new version: (pos == current length: append; else store at pos)"""
     if L.shape[0] == 'leaf':
@@ -444,7 +467,7 @@ def b_enumerate(I, args, kwargs, node):
 
 
 def b_zip(I, args, kwargs, node):
-    if args and all(isinstance(a, SymList) for a in args):
+    if args and all(isinstance(a, (SymList, SliceSym)) for a in args):
         return ZipSym(list(args))
     return [tuple(t) for t in zip(*[I.iterate(a, node) for a in args])]
 
@@ -1062,6 +1085,8 @@ def subscript(I, obj, idx, node):
                 return I.call(_I().BoundMethod(m, obj), [idx], {})
         if hasattr(obj, 'subscript_model'):
             return obj.subscript_model(I, idx)
+        if isinstance(obj, SymList):
+            return symlist_slice(I, obj, idx)
         raise Unsupported(f"slice of {type(obj).__name__}")
     if isinstance(obj, (str, SStr)):
         if not is_intlike(idx):
@@ -1134,7 +1159,7 @@ def subscript(I, obj, idx, node):
         raise PyRaise(TypeError)
     if isinstance(obj, SymList):
         if isinstance(idx, slice):
-            raise Unsupported("slice of a list of symbolic length")
+            return symlist_slice(I, obj, idx)
         return symlist_elem(I, obj, symlist_index(I, obj, idx, node))
     if isinstance(obj, list):
         return obj[idx]
